@@ -15,10 +15,10 @@ static LD const U_ = 1.1102230246251565e-16L; // 2^-53
 static LD const CSAFE = 4.0L;
 static LD gam(unsigned k) { return (k * U_) / (1 - k * U_); }
 
-enum { L_PLU, L_LDL, L_LLT, L_ROW_EXCHANGE, L_SINGULAR_CLASS, L_MUST_SUCCEED, L_BAD_SCALE, L_NEAR_SINGULAR, L_GLOBAL_SCALE, L_LAST_STEP_SWAP, L_HILBERT, L_N_GE_8, L_FAILED_OK, L_PERM_NOT_INVOLUTION, L_DET_UNREPRESENTABLE };
+enum { L_PLU, L_LDL, L_LLT, L_ROW_EXCHANGE, L_SINGULAR_CLASS, L_MUST_SUCCEED, L_BAD_SCALE, L_NEAR_SINGULAR, L_GLOBAL_SCALE, L_LAST_STEP_SWAP, L_HILBERT, L_N_GE_8, L_FAILED_OK, L_PERM_NOT_INVOLUTION, L_DET_UNREPRESENTABLE, L_LARGE_ORDER };
 static char const *const labels[] = {"plu", "ldl", "llt", "row_exchange_happened", "exactly_singular_class", "robustly_nonsingular_class", "rows_cols_scaled_2^k",
                                      "near_singular", "global_scale_2^s", "exchange_at_last_step", "hilbert_like", "n_ge_8", "factorization_reported_failure",
-                                     "permutation_not_self_inverse", "determinant_not_representable", nullptr};
+                                     "permutation_not_self_inverse", "determinant_not_representable", "order_13_to_65_pattern_filled", nullptr};
 static char const *const metrics[] = {"max_reconstruction_ratio", "max_solve_ratio", "max_inverse_ratio", "max_det_ratio", "max_lndet_ratio", nullptr};
 static uint8_t const dict[] = {3, 4, 7, 8, 9, 10, 11};
 static vp_info const info = {"C08", "factor", "", labels, metrics, 700, dict, sizeof(dict)};
@@ -32,13 +32,21 @@ struct Blk
     Blk(Blk const &) = delete;
 };
 
+// large orders: entries come from a generator seeded by the tape (a tape of n^2 entries would be too long to mutate usefully)
+static bool g_pat = false;
+static uint64_t g_state = 0;
+static uint32_t pat_next()
+{
+    g_state = g_state * 6364136223846793005ull + 1442695040888963407ull;
+    return uint32_t(g_state >> 33);
+}
 static double rd_real(Tape &t, int emin, int emax)
 {
-    uint32_t w = t.u32();
-    int e = emin + int(t.u8() % unsigned(emax - emin + 1));
+    uint32_t w = g_pat ? pat_next() * 2u + 1u : t.u32();
+    int e = emin + int((g_pat ? pat_next() : t.u8()) % unsigned(emax - emin + 1));
     return std::ldexp(double(int32_t(w | 1)) / 2147483648.0, e);
 }
-static int rd_int(Tape &t, int lim) { return int(t.u8() % unsigned(2 * lim + 1)) - lim; }
+static int rd_int(Tape &t, int lim) { return int((g_pat ? pat_next() : t.u8()) % unsigned(2 * lim + 1)) - lim; }
 
 static bool finite_all(double const *p, size_t n)
 {
@@ -607,6 +615,16 @@ static void run_case(Tape &t, Ctx &cx)
     uint8_t h = t.u8();
     int which = h % 3;
     unsigned n = 1 + (t.u8() % VP_MAXN);
+    g_pat = false;
+    if ((h >> 2) % 32 == 0)
+    {
+        // occasionally an order beyond the usual range (blocking / unrolling thresholds)
+        static unsigned const big[] = {13, 16, 17, 24, 31, 32, 33, 40, 48, 63, 64, 65};
+        n = big[t.u8() % 12];
+        g_pat = true;
+        g_state = t.u32() | 1;
+        cx.label(L_LARGE_ORDER);
+    }
     cx.hash.add(unsigned(which) | (n << 8));
     if (n >= 8) { cx.label(L_N_GE_8); }
     ++cx.rep->subcases;
